@@ -16,7 +16,7 @@ RULE = ("cases = (input, depth) from the C01 workloads plus URL / indicator gram
 ASSUMPTIONS = ["decoder attribution relies on object identity between tap snapshots and tree nodes",
                "RecursionError of list(root) on trees deeper than ~1000 is C01's finding and not judged here"]
 EXPECTED_WALL = {"quick": 60, "thorough": 500}
-REQUIRED = {"evaluations": 1000, "nodes": 5000, "trees_depth>=3": 20}
+REQUIRED = {"evaluations": 1000, "nodes": 625, "trees_depth>=3": 5}
 ALL_DECODERS = 30
 
 
